@@ -178,6 +178,48 @@ Theorem c05_before_crypto :
      exists rows, jws_entry w k a r algs = Ok rows /\ forallb (alg_verify crypto) rows = true).
 Proof. exact before_crypto. Qed.
 
+(* ---- the gates do not see the message.  Only the cryptographic stages receive the
+        plaintext / payload / aad; whatever they compute (two messages = two content
+        stages), and as long as key management does not fail first, a refusing gate
+        is the failure of the whole operation with the gate's error: the allow-list
+        verdict of encrypt / decrypt / sign is a function of (header names,
+        algorithms=, registry=) only.  The model's API calls (CallJwe ...) carry no
+        message argument; the harness checks the implementation against them with
+        empty / one-octet / ordinary plaintexts, payloads, aad and claims. ---- *)
+Theorem c05_gate_independent_of_message :
+  (forall K X km (ce1 ce2 : jwe_enc_row -> K -> option jwe_zip_row -> res X) w a r enc algs zip e,
+     (forall en rs, exists k, km en rs = Ok k) ->
+     jwe_entry w a r enc algs zip = Err e ->
+     jwe_encrypt_op K X km ce1 w a r enc algs zip = Err e /\
+     jwe_encrypt_op K X km ce2 w a r enc algs zip = Err e) /\
+  (forall K X km (ce1 ce2 : jwe_enc_row -> K -> option jwe_zip_row -> res X) w a r enc algs zip x,
+     jwe_encrypt_op K X km ce1 w a r enc algs zip = Ok x ->
+     exists t, jwe_entry w a r enc algs zip = Ok t /\
+               (forall e, jwe_encrypt_op K X km ce2 w a r enc algs zip <> Err e \/
+                          jwe_entry w a r enc algs zip <> Err e)) /\
+  (forall X (c1 c2 : list jws_alg_row -> res X) w k a r algs e,
+     jws_entry w k a r algs = Err e ->
+     jws_op X c1 w k a r algs = Err e /\ jws_op X c2 w k a r algs = Err e).
+Proof. exact gate_independent_of_message. Qed.
+
+Theorem c05_gate_failure_is_op_failure :
+  (forall X crypto w k a r algs e,
+     jws_entry w k a r algs = Err e -> jws_op X crypto w k a r algs = Err e) /\
+  (forall K X km ce w a r enc algs zip e,
+     (forall en rs, exists k, km en rs = Ok k) ->
+     jwe_entry w a r enc algs zip = Err e -> jwe_encrypt_op K X km ce w a r enc algs zip = Err e) /\
+  (forall K M X km cd dz w a r enc algs zip e,
+     (forall en rs, exists k, km en rs = Ok k) -> (forall en k, exists m, cd en k = Ok m) ->
+     jwe_entry w a r enc algs zip = Err e -> jwe_decrypt_op K M X km cd dz w a r enc algs zip = Err e).
+Proof. exact gate_failure_is_op_failure. Qed.
+
+Example c05_gate_message_instance :
+  fst (step w0 (CallJwe PNone RAbsent (pname "A128GCM") [pname "dir"] (Some (pname "BOGUS")))) = VUnit unsupported /\
+  fst (step w0 (CallJwe (PList [pname "dir"; pname "A128GCM"]) RAbsent (pname "A128GCM") [pname "dir"] (Some (pname "DEF")))) = VUnit unsupported /\
+  fst (step w0 (CallJwe PNone (RFresh RcJwe (PList [pname "dir"; pname "A128GCM"])) (pname "A128GCM") [pname "dir"] (Some (pname "DEF")))) = VUnit unsupported /\
+  fst (step w0 (CallJwe PNone RAbsent (pname "A128GCM") [pname "dir"] (Some (pname "DEF")))) = VUnit (Ok tt).
+Proof. exact gate_message_instance. Qed.
+
 (* ---- none: whatever the real signature checks say and whatever allow-list or
         registry is given (even one naming "none"), a JWS one of whose members
         has alg "none" never verifies ---- *)
@@ -371,6 +413,8 @@ Print Assumptions c05_entry_jws_else.
 Print Assumptions c05_entry_jwe.
 Print Assumptions c05_entry_jwe_else.
 Print Assumptions c05_before_crypto.
+Print Assumptions c05_gate_independent_of_message.
+Print Assumptions c05_gate_failure_is_op_failure.
 Print Assumptions c05_none.
 Print Assumptions c05_history.
 Print Assumptions c05_history_plain.
